@@ -4,15 +4,19 @@
 (* (Step, one disjunct per arm of the real step function) and the bounded  *)
 (* run loop as a small control-state machine.                              *)
 (***************************************************************************)
-EXTENDS PushScalar
-
-Registry == StackOpNames \cup ScalarInstr \cup {"NOOP"}
+EXTENDS PushMatch
 
 \* Apply(n, s): result of executing registered instruction n in state s (s.exec no longer holds n)
 Apply(n, s) ==
   IF n \in StackOpNames THEN ApplyStackOp(StackOpOf[n][1], StackOpOf[n][2], s)
   ELSE IF n \in ScalarInstr THEN ApplyScalar(n, s)
-  ELSE Fired(s)
+  ELSE IF n \in CodeFamily THEN ApplyCodeFamily(n, s)
+  ELSE IF n \in VectorInstr THEN ApplyVector(n, s)
+  ELSE IF n \in ListInstr THEN ApplyList(n, s)
+  ELSE IF n \in IOInstr THEN ApplyIO(n, s)
+  ELSE IF n \in GraphInstr THEN ApplyGraph(n, s)
+  ELSE IF n \in RandInstr THEN ApplyRand(n, s)
+  ELSE Fired(s)                       \* NOOP and the harness instructions
 
 \* which state fields a literal item is pushed to
 LiteralField(k) == CASE k = "bool" -> "bool" [] k = "int" -> "int" [] k = "float" -> "float"
@@ -23,7 +27,7 @@ StepKind(s) ==
   IF s.exec = <<>> THEN "empty"
   ELSE LET t == s.exec[1] IN
        IF t.k = "list" THEN "list"
-       ELSE IF t.k = "ins" THEN (IF t.v \in Registry THEN "instr" ELSE "unknown")
+       ELSE IF t.k = "ins" THEN (IF t.v \in KnownInstr THEN "instr" ELSE "unknown")
        ELSE IF t.k = "id" THEN (IF s.quote THEN "quoted" ELSE IF t.v \in DOMAIN s.bind THEN "bound" ELSE "free")
        ELSE "literal"
 
